@@ -42,6 +42,13 @@ CLAIMED["C13"] = ("Dispatch", "RunChain / LoadPlugins as TLA+ functions checked 
    "All 3906 chains x both protocols and ~10^3 configurations run through the real loader and dispatch loops.", _DISP_NOTE, "DESIGN.md section 3 C11-C15")
 CLAIMED["C15"] = ("Dispatch", "the RFC 2131 section 4.1 destination cascade as a TLA+ function, one declarative conjunct per sentence, equivalence checked by TLC on the whole addressing product; the product fed to the real HandleMsg4, (peer, control message, link-level flag) captured by the send hook and the Ethernet frame by the frame hook, validated by TLC",
    "Exhaustive over giaddr/ciaddr class x flag x type x reply type x yiaddr x bound/unbound x arrival interface; link-level replies run through sendEthernet up to the frame on a real interface with a hardware address.", _DISP_NOTE, "DESIGN.md section 3 C11-C15")
+_PLUG_NOTE = "trusted: harness/plugins.go (request construction via the codec, its own encoders of configured values, byte comparison with the serialised reply), TLC; one configuration per process"
+CLAIMED["C14"] = ("Plugins", "the server_id decision tables (RFC 8415 section 16 matrix; siaddr x option 54) as TLA+ operators, checked by TLC against the declarative statement on the whole request product; the product executed on the real handlers from Plugin.Setup4/Setup6 and validated by TLC",
+   "All DHCPv6 types 1..11 x {no, same, other kind, equal-prefix longer, differing} server id x relay depth 0..2 and all siaddr x option-54 combinations, for several accepted server_id arguments.", _PLUG_NOTE, "DESIGN.md section 3 C14/C17/C19")
+CLAIMED["C17"] = ("Plugins", "per-plugin entitlement tables as TLA+ operators checked by TLC; every accepted configuration x request product executed on the real handlers (fresh process per configuration), the serialised reply decoded and compared with the configured arguments, validated by TLC",
+   "Expect4/Expect6 tables cover netmask, router, searchdomains, staticroute, dns, mtu, nbp, lease_time, ipv6only, autoconfigure, sleep for both protocols; all 33 parameter request lists incl. an absent one.", _PLUG_NOTE, "DESIGN.md section 3 C14/C17/C19")
+CLAIMED["C19"] = ("Plugins", "setup/handle as a two-state machine (rejected | accepted => every request handled without panic and with a round-tripping reply); all argument vectors of the tier's arity for all 15 plugins executed in one process each and validated by TLC; a child process dying is an observation without action",
+   "~10^4 (quick) to ~4x10^4 (thorough) argument vectors x a battery of requests; fatal runtime errors of the code under test (not recoverable by recover()) are caught because every configuration runs in its own process.", _PLUG_NOTE + "; one recorded finding (prefix pools of 2^33..2^63 blocks die of OOM at start-up)", "DESIGN.md section 3 C14/C17/C19")
 NOT_YET = {}
 
 def main():
